@@ -24,3 +24,4 @@ def run(ctx):
     sh4(ctx, Shapes(ctx.model))
     from ..rules import immut
     immut.im11(ctx)     # a copy / derived URL never inherits cache entries computed for another URL
+    immut.im13(ctx)     # nobody writes into the cache of a URL it did not create (shared, memoised objects)
